@@ -165,6 +165,25 @@ CLAIMS = {
                      "arbitrary bytes is validated by the search only.",
         "technique": "Lean 4 totality theorems on a bug-compatible VM model + bytecode-level differential stream + API-sequence crash search",
     },
+    "C08": {
+        "text": "A bytecode verifier is defined in Lean (abstract interpretation: lower bound of the operand-stack height relative to "
+                "the innermost template hole, the stack of open blocks/holes with the heights they saved, open dice states, 'an "
+                "annotation span exists', pool-dice initialised; work-list inference + independent certificate check). Theorem "
+                "verified_never_stuck: if the certificate check accepts, then at EVERY state reachable in the control-flow skeleton "
+                "— both directions of every conditional jump, any number of loop iterations, no bound on the run — the next "
+                "instruction does not pop an empty stack, its jump has an operand and lands in [0,size], its block.pop / "
+                "fstr.block.pop has a matching push and the dice / annotation / pool-dice state it uses was set up earlier; "
+                "same_open_blocks: one program point is always reached with the same numbers of open blocks and holes. The verifier "
+                "(plus: annotation spans lie inside the body's own text) is run on the real compiler's output (hook VerifDumpCode) "
+                "for every accepted input — main body and every nested function/computed body — over structural corpora x "
+                "rejected tails, generated, truncated, mutated and adversarial programs. The skeleton is tied to the model VM by a "
+                "run-time cross-check on every dispatch (skel stream) and the model VM to rollvm.go by the vm stream. One defect "
+                "found this way was repaired (break/continue inside if); the emit-then-fail leak is a known finding.",
+        "note": TB + "The per-opcode effect table kindOf is validated against the model VM's exec by the D1/D2 cross-check on every "
+                     "dispatch of every generated program, not yet proved for all frames. The verifier is conservative: it demands "
+                     "proper nesting of blocks and template holes, which the VM itself (two separate stacks) does not need.",
+        "technique": "Lean 4 soundness theorem for a bytecode verifier (abstract interpretation, all paths) run on the compiler's real output + skeleton/VM cross-check streams",
+    },
 }
 
 NOT_YET = {}
